@@ -681,6 +681,7 @@ thread_local! {
     static LOG: RefCell<Vec<Event>> = RefCell::new(Vec::new());
     static CTX: RefCell<String> = RefCell::new(String::new());
     static KEEP: Cell<bool> = Cell::new(false);
+    static INTO_INNER: Cell<bool> = Cell::new(false);
 }
 
 #[derive(Clone, Debug, PartialEq, Eq)]
@@ -776,6 +777,19 @@ pub fn result<'a, T: Obs<'a>>(v: &T) {
 /// host: should the user code keep the owned handles it receives in the next call?
 pub fn set_keep(on: bool) {
     KEEP.with(|k| k.set(on));
+    INTO_INNER.with(|k| k.set(false));
+}
+
+/// host: in the next call the user code takes the value out of every own handle
+/// to one of its *own* (exported) resources it receives (`into_inner`) and drops
+/// that value; other received handles are kept.
+pub fn set_into_inner() {
+    KEEP.with(|k| k.set(true));
+    INTO_INNER.with(|k| k.set(true));
+}
+
+pub fn into_inner_mode() -> bool {
+    INTO_INNER.with(|k| k.get())
 }
 
 /// guest: end of life of a received value: keep its owned handles or drop it
